@@ -4,8 +4,9 @@ CONSTANTS
   MaxFaults = 1
   MaxRogue = 1
   FixUnknown = TRUE
+  CtxWriteCloses = FALSE
 SPECIFICATION FairSpec
-INVARIANTS TypeOK OwnReply TagsDistinct NeverNotag NeverCrashes OkHasReply
+INVARIANTS TypeOK NoSelfClose ClosedOnlyAfterFault OwnReply TagsDistinct NeverNotag NeverCrashes OkHasReply
 PROPERTIES AllReturnAfterDown
 VIEW View
 CHECK_DEADLOCK FALSE
